@@ -2,7 +2,7 @@
 
 Model: spec/Bulk.tla holds (a) Required(body): the set of admissible outcomes the property statement allows for a
   request body (items in request order, errors flag, stored documents) and (b) a transcription of HandleBulkBody's
-  per-line state machine.  TLC compares them for every body of <= MaxLines lines over 12 line classes and proves the
+  per-line state machine.  TLC compares them for every body of <= MaxLines lines over 13 line classes and proves the
   bodies on which the transcription deviates are exactly four named classes (Characterised) and that the four
   candidate patches remove every deviation (Conforms with Fix* = TRUE).
 Binding: every TLC-exported body is concretised (unique marker per line) and posted to the real HandleBulkBody through
@@ -29,8 +29,8 @@ MANIFEST = dict(
               "store (flush + search) and compared with Required and with the transcription",
     text=("spec/Bulk.tla: per-line state machine of HandleBulkBody (ReadLine cursor, switch on the action, success / "
           "maxRecordSizeExceeded / overallError / atleastOneSuccess, items, per-index batches) against Required(body), the set of "
-          "admissible (items, errors, stored) outcomes of the statement, over 12 line classes (index/create/update/delete/unknown "
-          "action, other-index and unstorable-index action, not-JSON, valid/damaged/oversize document, empty line) with and without "
+          "admissible (items, errors, stored) outcomes of the statement, over 13 line classes (index/create/update/delete/unknown "
+          "action, other-index and unstorable-index action, not-JSON, valid / valid-but-column-less / damaged / oversize document, empty line) with and without "
           "final newline. TLC proves Characterised (deviating bodies = 4 named classes) for all bodies <= 4 lines (quick) / 5 lines "
           "(thorough) and Conforms for the patched transcription. All exported bodies (<= 3 lines + seeded sample of 4 in quick; "
           "<= 4 + 10 000 simulated 5-6 line bodies in thorough) are posted to the real handler; items are compared position-wise with "
@@ -89,6 +89,10 @@ def concretise_line(c, m, rnd):
         elif rnd.random() < 0.3:
             d["nested"] = {"a": {"b": rnd.randrange(10)}, "l": [1, "two"]}
         return json.dumps(d)
+    if c == "NOC":
+        # valid documents that have no leaf column after flattening (the timestamp key is not a column); they carry no marker
+        return rnd.choice(["{}", json.dumps({"timestamp": int(time.time() * 1000)}), json.dumps({"tags": [], "meta": {}}),
+                           json.dumps({"a": {"b": {}}, "l": []}), "{ }"])
     if c == "BAD":
         return rnd.choice(['{"lid":"%s","v":' % m, '["%s"]' % m, '"%s"' % m, '{"lid":"%s","v":{"w":1}' % m])
     if c == "BIG":
@@ -134,6 +138,7 @@ def post(dr, body):
 def stored_markers(dr, t_start, bno, with_long):
     """marker -> count, for records of body bno (markers are unique per line of each body)"""
     out = {}
+    anon = 0
     exprs = ["*"] + ([LONG_INDEX] if with_long else [])
     for ex in exprs:
         q = dr.ok("query", org=0, index=ex, text="*", start=t_start, size=5000)
@@ -146,7 +151,11 @@ def stored_markers(dr, t_start, bno, with_long):
                 got[m] = got.get(m, 0) + 1
         for m, n in got.items():
             out[m] = max(out.get(m, 0), n)
-    return out
+        if ex == "*":
+            # records without any marker: the column-less documents (NOC) of all bodies so far
+            anon = sum(1 for rec in (q.get("hits") or {}).get("records") or []
+                       if not any(isinstance(v, str) and MARK.match(v) for v in rec.values()))
+    return out, anon
 
 
 # ------------------------------------------------------------------ comparison with Required
@@ -156,7 +165,7 @@ def rep(st):
 
 
 SIMPLE = ("IDX", "DOC")
-ALL_CLASSES = ("IDX", "IDXB", "IDXL", "CRE", "UPD", "DEL", "UNK", "NJ", "DOC", "BAD", "BIG", "EMP")
+ALL_CLASSES = ("IDX", "IDXB", "IDXL", "CRE", "UPD", "DEL", "UNK", "NJ", "DOC", "NOC", "BAD", "BIG", "EMP")
 ALL_SHAPES = [(a,) for a in ALL_CLASSES] + [(a, d) for a in ALL_CLASSES for d in ALL_CLASSES]
 
 
@@ -199,6 +208,7 @@ def _reasons(lines, items, obs, stored, s, alone):
         else:
             reasons.append(("C15:items:count", "%d items, %d actions in request" % (len(items), len(s))))
     okdocs = set()
+    want_anon = 0
     for k in range(min(len(items), len(s))):
         r = rep(items[k][0])
         acls = lines[s[k]["a"] - 1]
@@ -210,7 +220,9 @@ def _reasons(lines, items, obs, stored, s, alone):
                 reasons.append(("C15:item:created-for-unstorable", "item %d (%s) reported %s but this action cannot have stored anything" % (k + 1, cls, items[k][0])))
             else:
                 reasons.append(("C15:item:failed-for-valid-document", "item %d (%s) reported %s for a valid document" % (k + 1, cls, items[k][0])))
-        if r == "ok":
+        if r == "ok" and d and lines[d - 1] == "NOC":
+            want_anon += 1           # a column-less document: counted below (it has no marker)
+        elif r == "ok":
             if d:
                 okdocs.add(d)
                 n = stored.get(d, 0)
@@ -225,6 +237,13 @@ def _reasons(lines, items, obs, stored, s, alone):
     if stray:
         reasons.append(("C15:store:unacknowledged-document-stored", "line(s) %s (%s) are searchable but belong to no created item" % (
             stray, [lines[i - 1] for i in stray])))
+    anon = obs.get("anon", 0)
+    if anon < want_anon:
+        reasons.append(("C15:store:created-but-not-searchable:column-less", "%d item(s) reported created for documents without any leaf column ({}, only "
+                        "the timestamp key, only empty containers), but only %d new record(s) without marker are searchable after flush" % (want_anon, anon)))
+    elif anon > want_anon:
+        reasons.append(("C15:store:unacknowledged-document-stored", "%d new marker-less record(s) are searchable, %d column-less document(s) were "
+                        "acknowledged as created" % (anon, want_anon)))
     failed = sorted(set(i[0] for i in items if rep(i[0]) == "fail"), key=str)
     if bool(obs["errors"]) != bool(failed):
         if failed:
@@ -272,13 +291,16 @@ def run_chunk(binary, chunk):
         dr = vlib.Driver(binary)
         dr.ok("init", dir=d)
         t_start = int(time.time() * 1000) - 3600_000
+        prev_anon = 0
         for (bno, seed, b) in chunk:
             rnd = random.Random(seed)
             body = concretise(b["lines"], b["nl"], bno, rnd)
             obs = post(dr, body)
             dr.ok("flush")
-            got = stored_markers(dr, t_start, bno, "IDXL" in b["lines"])
+            got, anon_total = stored_markers(dr, t_start, bno, "IDXL" in b["lines"])
             stored = {int(m.split("L")[1]): n for m, n in got.items()}
+            obs["anon"] = anon_total - prev_anon       # marker-less records that appeared with this body
+            prev_anon = anon_total
             res.append((bno, obs, stored))
     except vlib.DriverDead as e:
         if e.kind == "hang" or e.rc in (-15, -9, -2):
@@ -457,8 +479,9 @@ def run(chk):
             n_dev += 1
         # conformance of the transcription
         im = b["impl"]
-        pred = ([i["st"] for i in im["items"]], bool(im["errors"]), sorted(im["stored"]), bool(im["herr"]))
-        real = ([i[0] for i in obs["items"]], bool(obs["errors"]), sorted(k for k, n in stored.items() if n > 0), bool(obs["herr"]))
+        pred = ([i["st"] for i in im["items"]], bool(im["errors"]), sorted(l for l in im["stored"] if b["lines"][l - 1] != "NOC"),
+                sum(1 for l in im["stored"] if b["lines"][l - 1] == "NOC"), bool(im["herr"]))
+        real = ([i[0] for i in obs["items"]], bool(obs["errors"]), sorted(k for k, n in stored.items() if n > 0), obs.get("anon", 0), bool(obs["herr"]))
         if pred != real:
             drift.append({"lines": b["lines"], "nl": b["nl"], "predicted": pred, "real": real})
         if len(chk.cov["samples"]) < 3 and len(b["lines"]) >= 3 and nontrivial:
@@ -481,7 +504,7 @@ def run(chk):
         "update is a two-line action, delete a one-line action (Elasticsearch bulk format); a malformed action line may be read "
         "as one or two lines; an empty line may or may not yield an item; without final newline the last action may be rejected",
     ]
-    chk.describe(rule="TLC enumerates every body of <= 4 lines over 12 line classes x final newline (and simulates 5-6 line bodies "
+    chk.describe(rule="TLC enumerates every body of <= 4 lines over 13 line classes x final newline (and simulates 5-6 line bodies "
                       "in thorough); quick replays all <= 3 lines + a seeded sample of 4500 four-line bodies. distinct_nontrivial = "
                       "distinct (class sequence, newline) bodies of >= 2 lines containing a damaged/oversize/unknown/unsupported/"
                       "empty/unstorable line",
